@@ -241,7 +241,7 @@ class InterleavedSampler:
         update = self.start_update
         sample = self.start_sample
         sample_in_update = 0
-        sample_at_last_update = 0
+        sample_at_last_update = self.start_sample
         while True:
             sample_in_epoch = 0
             if hasattr(self.main_sampler, "set_epoch"):
